@@ -211,8 +211,24 @@ def pick_num_dtype(rng, nums):
     return rng.choice(cands)
 
 
+_CALLS = [0]
+
+
 def real_thermal(sat, chan, nums, prt, ict, space, counts, num_dtype=None):
     from pygac.calibration.noaa import Calibrator, calibrate_thermal
+    _CALLS[0] += 1
+    if _CALLS[0] % 3 == 0:
+        # someone else in this process has just calibrated the same spacecraft with CUSTOM thermal coefficients (a
+        # sensitivity experiment: every thermometer 5 K warmer, other channel coefficients): the default calibration
+        # that follows must not see any of it
+        tb = table()[sat]
+        custom = {}
+        for key in ("thermometer_1", "thermometer_2", "thermometer_3", "thermometer_4"):
+            if key in tb:
+                custom[key] = {k: float(v) + (5.0 if k == "d0" else 0.0) for k, v in tb[key].items()}
+        for key in ("channel_3b", "channel_4", "channel_5"):
+            custom[key] = {k: float(v) * 1.01 for k, v in tb[key].items()}
+        Calibrator(sat, custom_coeffs=custom)
     cal = Calibrator(sat)
     n = len(nums)
     cnt = np.tile(np.asarray(counts, dtype=float)[None, :], (n, 1))
